@@ -194,7 +194,7 @@ def _worker(args):
             # shrink at most 3 new signatures per shard, reusing the same seeded sequence;
             # fall back to the smallest observed case when shrinking does not finish
             if not budget.get("no_shrink"):
-                for sig in sorted(stats.failures)[:3]:
+                for sig in [x for x in sorted(stats.failures) if not x.startswith("HARNESS:")][:3]:
                     slot = stats.failures[sig]
                     minimal = _find_minimal(mod, strat, derived, n, sig, budget)
                     if minimal is not None and jsize(minimal[0]) <= slot["size"]:
@@ -344,6 +344,9 @@ def cmd_campaign(mod, tier, seed):
     # 3. every candidate violation is confirmed from its replay file in a fresh process
     (VERIF / "replays").mkdir(exist_ok=True)
     for sig, slot in sorted(merged["failures"].items()):
+        if sig.startswith("HARNESS:"):
+            harness_errors.append(f"{sig} ({slot['count']} cases): {slot['message'][:600]}")
+            continue
         body = {"property": pid, "signature": sig, "message": slot["message"],
                 "seed": seed, "tier": tier, "occurrences": slot["count"],
                 "shrunk": bool(slot.get("shrunk")), "case": slot["case"]}
